@@ -46,6 +46,27 @@ theorem C06_base64_unique_text (s₁ s₂ : List UInt8) (bs : Bytes)
     (h₁ : b64DecodeNoPad s₁ = some bs) (h₂ : b64DecodeNoPad s₂ = some bs) : s₁ = s₂ :=
   (b64EncodeNoPad_decode h₁).trans (b64EncodeNoPad_decode h₂).symm
 
+/-- **Canonical at the level of hashes**: a text that parses to `h` is `h.base64` — the parser accepts exactly one text per
+    hash (with `C06_base64_roundtrip`: `fromBase64 s = some h ↔ s = h.base64`). -/
+theorem C06_base64_parse_iff (s : List UInt8) (h : Hash) : fromBase64 s = some h ↔ s = h.base64 := by
+  constructor
+  · intro hp
+    unfold fromBase64 at hp
+    split at hp
+    · rename_i b hb
+      split at hp
+      · rename_i hl
+        injection hp with hp
+        subst hp
+        unfold base64
+        rw [toBytes_ofBytes b hl]
+        exact b64EncodeNoPad_decode hb
+      · simp at hp
+    · simp at hp
+  · intro hs
+    subst hs
+    exact C06_base64_roundtrip h
+
 /-- a text with a padding character anywhere is rejected (the padded form of the same hash included) -/
 theorem C06_base64_rejects_padding (s : List UInt8) (h : b64Pad ∈ s) : fromBase64 s = none := by
   unfold fromBase64 b64DecodeNoPad
